@@ -24,7 +24,7 @@ class CpuBudgetExceeded(BudgetExceeded):
     so machine load does not matter)."""
 
 
-CPU_LIMIT_S = 20.0
+CPU_LIMIT_S = 6.0
 
 
 class StepBudget:
